@@ -53,8 +53,6 @@ TEXT_PATCHES = [
     ("C11", "For all precursor lists, sample numbers, minimum ratio counts, stabilisation on/off and any edge filter.",
      "Stage-A statements hold for all precursor lists, sample numbers, minimum ratio counts, stabilisation on/off and any edge filter; the consistent-data recovery theorem (consistent_lfq) needs stabilisation off, a minimum ratio count >= 1 and at least two samples that are all linked — with stabilisation on and very unequal peptide counts the summed-intensity ratio enters by design and proportionality to the sample factors is not claimed."),
     ("C11", "the check reports VIOLATION on /repo until they are applied", "both applied to /repo as fix: commits 0071b99 and b4e1557 (known_findings.json)"),
-    ("C12", "Open proposal (not applied, check follows the code): iBAQ peptide numbers are looked up under the default identifier rule",
-     "Found by this composition and repaired (fix: commit ed368a8): iBAQ peptide numbers were looked up under the default identifier rule"),
 ]
 EXTRA_NOTE = {
     "C12": " Hypothesis of conservation / intensity_recompute / tmt_recompute: every evidence file of the set has the SAME SILAC / TMT column layout (the code fixes num_silac_channels from the first row it sees; a label-free file followed by a SILAC file makes it add L/H values into other experiments' slots — the model is faithful to that, the theorems and the generator assume one layout, and the property speaks of 'optionally SILAC or TMT channels' for the set as a whole).",
